@@ -275,6 +275,20 @@ func (d *UpGrid) Eval(x *Exec, root *Node, gc GridCase) GridResult {
 				break
 			}
 		}
+		if c.Contract == "netmap" {
+			// who is told about a new epoch is not readable through the API, but it is what the tick does next: the two
+			// subscribers (stored as two named keys before 0.19.0, as an ordered list since) survive, in order
+			var subs []string
+			for _, kv := range w.Dump(cur.L, c.Contract) {
+				if len(kv.K) == 22 && kv.K[0] == 'e' {
+					subs = append(subs, fmt.Sprintf("%d:%x", kv.K[1], kv.K[2:]))
+				}
+			}
+			want := []string{fmt.Sprintf("0:%x", d.fake[0].BytesBE()), fmt.Sprintf("1:%x", d.fake[1].BytesBE())}
+			if fmt.Sprint(subs) != fmt.Sprint(want) {
+				fail("data-not-preserved", fmt.Sprintf("new-epoch subscribers after the upgrade: %v, the legacy storage named %v", subs, want))
+			}
+		}
 		if legacyFlags && hasFlag {
 			if si := cur.L.GetStorageItem(w.Contracts[c.Contract].ID, []byte("notary")); si != nil && switchers[c.Contract] {
 				fail("data-not-preserved", "the legacy notary flag survived the switch to Notary mode")
